@@ -144,19 +144,21 @@ def run(prop, tier, seed):
         # C10/C11 speak about every vector the library *accepts*: near misses are offered too, and whatever is accepted is judged
         items += [{"op": "construct", "ver": ver, "s": esc(s), "json": True} for s in corpus.near_misses(rnd, 600 if not big else 20000) for ver in "234"]
         ev = record_events(items, work)
+        nrej = sum(1 for e in ev[:nvalid] if e["out"]["cls"] == "exc")
+        c.extra["valid_vectors_rejected_by_the_library"] = nrej          # C04's business; this property speaks about accepted vectors
+        if nrej > nvalid // 2:
+            raise MachineryError("the library rejects most of the generated valid vectors, e.g. %s" % [e["s"] for e in ev[:nvalid] if e["out"]["cls"] == "exc"][0])
         for n_, e in enumerate(ev):
-            if e["out"]["cls"] != "ok" and n_ < nvalid:
-                raise MachineryError("generator produced a vector the library rejects: %s" % e["s"])
             for k in ("re_clean", "re_rh", "asm"):
                 e["out"].pop(k, None)
         c.extra["near_misses_accepted_by_the_library"] = sum(1 for e in ev[nvalid:] if e["out"]["cls"] == "ok")
-        ev = ev[:nvalid] + [e for e in ev[nvalid:] if e["out"]["cls"] == "ok"]
+        ev = [e for e in ev if e["out"]["cls"] in ("ok", "accessor-raised")]
         c.evaluations = 4 * len(ev)
         if prop == "C10":
             # design level: the transcription of the schemas agrees with the jsonschema library on the pinned files
             val = lib_validators()
             xs = []
-            for e in ev[:: (3 if not big else 1)]:
+            for e in [x for x in ev if x["out"]["cls"] == "ok"][:: (3 if not big else 1)]:
                 sv = {"2": "2.0", "4": "4.0"}.get(e["ver"], "3.%d" % e["out"]["minor"])
                 for variant in ("uf", "sm"):
                     doc = e["out"]["json"][variant]
@@ -179,6 +181,10 @@ def run(prop, tier, seed):
         c.add_tlc("MC_Json: the reference documents of JsonDoc.tla (every metric x value on a sparse and a dense background, 4 variants) satisfy the schema predicates and the C11 rules", tlc_or_die("MC_Json", workers=4, timeout=1800))
         c.add_tlc("MC_Internals: JSON value names = upper-cased descriptions up to the listed exceptions; display tables cover the standards' tables; lookup domain", tlc_or_die("MC_Internals", workers=1, timeout=600))
         from props.strings import CHUNK
+        for e in ev:
+            if e["out"].get("cls") == "accessor-raised":
+                c.violation("%s|accessor-raised|%s" % (prop, e["out"]["e"]["exc"]), "an accessor raised %s (%s) for the accepted vector %s(%s)" % (e["out"]["e"]["exc"], e["out"]["e"].get("msg", "")[:120], "CVSS" + e["ver"], e["s"][:200]),
+                            {"ver": e["ver"], "s": e["s"], "clause": "accessor-raised"})
         chunk = max(1, CHUNK // 4)             # an event carries four documents
         for k0 in range(0, len(ev), chunk):
             part = ev[k0:k0 + chunk]
@@ -210,7 +216,7 @@ def run(prop, tier, seed):
                   "(sort, minimal) documents after json.dumps/json.loads; judged by TLC against " +
                   ("JsonSchema.tla (transcription of the four official schemas, cross-checked in this run against the jsonschema library on the pinned files incl. mutated documents)"
                    if prop == "C10" else "the faithfulness / sort / minimal constraints of TraceJson.tla with independent name tables (Tables*.tla)"))
-        c.samples = [{"s": e["s"], "json_sorted_minimal": e["out"]["json"]["sm"][:6]} for e in ev[::max(1, len(ev) // 4)]][:4]
+        c.samples = [{"s": e["s"], "json_sorted_minimal": e["out"]["json"]["sm"][:6]} for e in [x for x in ev if x["out"]["cls"] == "ok"][::max(1, len(ev) // 4)]][:4]
         c.assumptions = ["TLC; JSON values travel as [key, type, text]; numbers by repr"]
         return c.finish()
     finally:
